@@ -100,6 +100,37 @@ def impl_rx(ssnet, chunks):
     return "%s %s | %s %d" % (status, fr, hx(bytes(m.inbuf)), m.want)
 
 
+def impl_rx_end(ssnet, chunks, err=None):
+    """like impl_rx, then the stream ENDS: one more wake-up whose read() answers b"" (the peer closed the tunnel) or
+    fails with errno `err`.  Returns (result in impl_rx's format, how that last wake-up ended)."""
+    import sshuttle.helpers as helpers
+
+    class EndR(FakeR):
+        def read(self, n=-1):
+            if not self.chunks and err is not None:
+                raise OSError(err, "injected")
+            return FakeR.read(self, n)
+    r = EndR([])
+    m = ssnet.Mux(r, FakeW())
+    got = []
+    m.got_packet = lambda ch, cmd, data: got.append((ch, cmd, bytes(data)))
+    status, end = "OK", "not reached"
+    for c in list(chunks) + [None]:
+        r.chunks = [c] if c is not None else []
+        try:
+            m.handle()
+            end = "returned" if c is None else end
+        except AssertionError:
+            status = "ASSERT"
+            break
+        except helpers.Fatal:
+            end = "Fatal"
+        except Exception as e:        # noqa
+            end = type(e).__name__
+    fr = ";".join("%d,%d,%s" % (a, b, hx(d)) for a, b, d in got)
+    return "%s %s | %s %d" % (status, fr, hx(bytes(m.inbuf)), m.want), end
+
+
 def impl_tx(ssnet, ops):
     w = FakeW()
     m = ssnet.Mux(FakeR([]), w)
@@ -424,6 +455,17 @@ def correspondence(ctx):
             lines.append("RX " + " ".join(hx(c) for c in chunks))
             impl.append(impl_rx(ssnet, chunks))
             descr.append(("rxl", hash(s), tuple(len(c) for c in chunks)))
+            # ... and then the stream ends (the peer closes the tunnel, or reading it fails): the read that reports
+            # the end is one more read boundary — what has been decoded from the bytes must not depend on it
+            err = rng.choice([None, None, 5, 104, 9])
+            res_end, how = impl_rx_end(ssnet, chunks, err)
+            ctx.count("rx_stream_end_" + ("eof" if err is None else "read_error"))
+            if not impl[-1].startswith("ASSERT") and (res_end != impl[-1] or how != ("returned" if err is None else "Fatal")):
+                ctx.violation("the messages decoded from a byte stream change when the stream ends (end-of-stream read or "
+                              "read error after the last byte), or the end is not reported the way the code provides for",
+                              {"chunks_hex": lines[-1][3:][:3000], "stream_end": "eof" if err is None else "errno %d" % err,
+                               "decoded_without_end": impl[-1][:600], "decoded_with_end": res_end[:600],
+                               "last_wakeup": how, "expected_last_wakeup": "returned" if err is None else "Fatal"})
             expect.append((len(lines) - 1, "OK %s | - 0" % ";".join("%d,%d,%s" % (a, b, hx(d)) for a, b, d in frames))
                           if not tail else None)
     # oracle on the implementation alone: once a well-formed stream has been handed over completely,
